@@ -130,14 +130,14 @@ Proof.
   { simpl. split; [constructor; auto | auto]. }
   set (class := choose_class c cl k) in *.
   set (idx0 := match bget (binds c) x with
-    | Some b => if Bool.eqb (is_CInt (bcls b)) (is_CInt class) && (is_cplx (bkind b) || negb (is_cplx k)) then bidx b else NoIndex
+    | Some b => if Bool.eqb (is_CInt (bcls b)) (is_CInt class) && kind_eqb (bkind b) k then bidx b else NoIndex
     | None => NoIndex end).
   (* facts about a reused index *)
   assert (R : idx0 = NoIndex \/ exists b, bget (binds c) x = Some b /\ idx0 = bidx b /\
               is_CInt (bcls b) = is_CInt class /\ need k <= need (bkind b)).
   { unfold idx0. destruct (bget (binds c) x) as [b|] eqn:G; [|auto].
     destruct (Bool.eqb (is_CInt (bcls b)) (is_CInt class)) eqn:E1; simpl; [|auto].
-    destruct (is_cplx (bkind b) || negb (is_cplx k)) eqn:E2; [|auto].
+    destruct (kind_eqb (bkind b) k) eqn:E2; [|auto].
     right. exists b. repeat split; auto. apply eqb_prop; auto.
     destruct (bkind b), k; simpl in *; try lia; discriminate. }
   clearbody idx0.
@@ -222,7 +222,7 @@ Qed.
 
 (* ---------------- compile phase ---------------- *)
 Definition undeclared (s : stmt) (x : name) : Prop :=
-  match s with SVar y _ _ => x <> y | SFunc y _ => x <> y | SConst y _ => x <> y | _ => True end.
+  match s with SVar y _ _ => x <> y | SFunc y _ _ => x <> y | SConst y _ => x <> y | _ => True end.
 
 Record cstep (c c' : comp) : Prop := mkCstep {
   cs_wf : wf c -> max_ok c -> wf c' /\ max_ok c';
@@ -263,7 +263,7 @@ Proof.
   - destruct (compileExpr c p); [|discriminate]. destruct (compileExpr c e); [|discriminate].
     inversion H; subst; split; auto using cstep_refl.
   - destruct (compileExpr c e); [|discriminate]. inversion H; subst; split; auto using cstep_refl.
-  - destruct (newBind c f CFunc KBox 0) as [c1 b] eqn:NB. destruct ok; [|discriminate].
+  - destruct (newBind c f CFunc (KBoxT t) 0) as [c1 b] eqn:NB. destruct ok; [|discriminate].
     assert (c' = c1) by (destruct (bidx b =? NoIndex); inversion H; auto). subst c1.
     change c' with (fst (c', b)). rewrite <- NB. split; [apply cstep_newBind|].
     intros y U. apply newBind_other. exact U.
@@ -400,7 +400,7 @@ Proof.
     destruct A as [A|A]; [exact (compileExpr_addr _ _ _ W CP A) | exact (compileExpr_addr _ _ _ W CE A)].
   - destruct (compileExpr c e) as [ce|] eqn:CE; [|discriminate].
     inversion H; subst; simpl in A; rewrite orb_false_r in A; eapply compileExpr_addr; eauto.
-  - destruct (newBind c f CFunc KBox 0) as [c1 b]. destruct ok; [|discriminate].
+  - destruct (newBind c f CFunc (KBoxT t) 0) as [c1 b]. destruct ok; [|discriminate].
     destruct (bidx b =? NoIndex); inversion H; subst; simpl in A; discriminate.
   - destruct (newBind c x CConst KBox z). inversion H; subst. discriminate.
   - inversion H; subst. discriminate.
